@@ -20,6 +20,13 @@ pub fn get_rewards_share(deps: Deps, address: Addr) -> Result<RewardsShareRespon
     if !earliest_available_weight_for_user.is_empty() {
         (last_epoch_user_weight_update, last_user_weight_seen) =
             earliest_available_weight_for_user[0];
+
+        // weights are recorded for the epoch after the one in which a position changes. If the
+        // earliest record is for a future epoch the address has no weight in the current epoch,
+        // which is also how claims treat it.
+        if last_epoch_user_weight_update > current_epoch {
+            last_user_weight_seen = Uint128::zero();
+        }
     } else {
         let global_weight_at_current_epoch = GLOBAL_WEIGHT_SNAPSHOT
             .may_load(deps.storage, current_epoch)?
